@@ -167,7 +167,11 @@ func (t *domainRoutingTracker) removeOwnerOf(m *ebpf.Map, ownerKey string, evict
 	}
 	t.mu.Lock()
 	defer t.mu.Unlock()
-	if cur, ok := t.owners[ownerKey]; ok && cur.src != nil && evicted != nil && cur.src != evicted {
+	if cur, ok := t.owners[ownerKey]; ok && cur.src != nil && evicted != nil && cur.src != evicted &&
+		(cur.src.routeLive == nil || cur.src.routeLive()) {
+		// The owner key belongs to a newer entry that is still cached. If the entry
+		// the addresses came from is itself gone (replaced by the evicted one before
+		// that was ever synced), nobody else will remove them: fall through.
 		return nil
 	}
 	return t.syncOwnerLocked(m, ownerKey, domainRoutingOwnerSnapshot{})
